@@ -418,6 +418,25 @@ func countRep(name string) {
 func (w *World) project(v hx.Val, t *hx.TRef, salt string) interface{} {
 	switch v.K {
 	case "", "nil":
+		// an absent object is, as often as not, a nil pointer of the Go type the data layer uses:
+		// a typed nil (in a field, a list member, whatever a list accessor hands out)
+		if t != nil && t.List == nil && !w.C.Universe && w.C.Schema.IsComposite(t.Name) {
+			switch hashOf(w.C.ListSeed, "nil"+salt) % 4 {
+			case 0:
+				countRep("typed-nil-object")
+				if w.C.AnyInstalled {
+					return (*ANode)(nil)
+				}
+				return (*RNode)(nil)
+			case 1:
+				if poss := w.C.Schema.PossibleTypes(t.Name); len(poss) > 0 {
+					if _, isX := w.stypes[poss[0]]; isX {
+						countRep("typed-nil-object")
+						return reflect.Zero(reflect.PtrTo(w.structType(w.C.Schema.Type(poss[0])))).Interface()
+					}
+				}
+			}
+		}
 		return nil
 	case "ref":
 		return w.nodeValue(v.RefID())
